@@ -3,15 +3,15 @@
 cd /verif
 mkdir -p /tmp/evid_scratch
 run_clean() { p=$1; VERIF_EVIDENCE_DIR=/tmp/evid_scratch/clean ./check $p > /tmp/evid_scratch/clean_$p.log 2>&1; echo "clean $p rc=$?"; }
-run_seed() { id=$1; v=$2; props=$3; wt=/tmp/wt/$id-$v; dir=/verif/seeded/$id-$v; [ -d $dir ] || dir=/tmp/seeds/$id/$v
+run_seed() { id=$1; v=$2; props=$3; wt=/tmp/wt/$id-$v; dir=/verif/seeded/$id-$v
   rm -rf $wt; mkdir -p $wt && cp -r /repo/cryocat $wt/ || { echo "seed $id-$v COPY-FAILED"; return; }
   ( cd $wt && git apply $dir/patch.diff ) || { echo "seed $id-$v APPLY-FAILED"; rm -rf $wt; return; }
   best=0; for p in $props; do VERIF_EVIDENCE_DIR=/tmp/evid_scratch/$id$v /verif/check $p --repo $wt > /tmp/evid_scratch/seed_$id$v$p.log 2>&1; rc=$?; [ $rc -eq 1 ] && best=1; [ $rc -eq 2 ] && [ $best -eq 0 ] && best=2; done
   echo "seed $id-$v rc=$best"; rm -rf $wt; }
 export -f run_clean run_seed
 ( for i in 01 02 03 04 05 06 07 08 09 10 11 12 13 14 15 16 17 18 19 20; do echo "run_clean C$i"; done
-  for i in 01 02 03 04 05 06 07 08 09 10 11 12 13 14 15 16 17 18 19 20; do for v in a b c d e f g h i j k l m n o p q r s t u v w x y z za zb zc zd ze zf zg; do
-    d=/verif/seeded/C$i-$v; [ -d $d ] || d=/tmp/seeds/C$i/$v; [ -f $d/patch.diff ] || continue
+  for i in 01 02 03 04 05 06 07 08 09 10 11 12 13 14 15 16 17 18 19 20; do for v in a b c d e f g h i j k l m n o p q r s t u v w x y z za zb zc zd ze zf zg zh zi zj; do
+    d=/verif/seeded/C$i-$v; [ -f $d/patch.diff ] || continue
     props="C$i"; [ -f $d/meta.json ] && extra=$(/venv/bin/python -c "import json,sys; print(' '.join(json.load(open('$d/meta.json')).get('also_checked_by',[])))" 2>/dev/null) && props="$props $extra"
     echo "run_seed C$i $v \"$props\""; done; done ) | xargs -P 16 -I{} bash -c "{}" | sort > /tmp/evid_scratch/regress.txt
 grep -c "clean.*rc=0" /tmp/evid_scratch/regress.txt | sed 's/^/clean ok: /'
